@@ -9,7 +9,7 @@ use midnight_curves::{
     serde::SerdeObject,
 };
 use num_bigint::BigUint;
-use num_traits::{One, Zero};
+use num_traits::Zero;
 use serde_json::{json, Value};
 use vcore::{
     big::{self, bu, from_le, hexs, pow2, to_le, Fp},
@@ -22,13 +22,33 @@ use crate::{
     types::{BLS_P, BN_Q},
 };
 
-fn mk<R, M>(cx: &mut Ctx, name: &'static str, t: &Tw, build: Box<dyn Fn(&M) -> R + Send + Sync>, rhs_full: bool) -> Arc<TCtx<R, M>>
+/// Which alphabet members serve as right operands of binary operations.
+#[derive(Clone, Copy)]
+enum RhsMode {
+    /// the whole alphabet
+    Full,
+    /// members with at most one non-zero coefficient, the dense ones and all(-1)
+    Sparse,
+    /// `Sparse` plus every n-th member with two non-zero coefficients
+    SparsePlusEvery(usize),
+}
+
+fn mk<R, M>(cx: &mut Ctx, name: &'static str, t: &Tw, build: Box<dyn Fn(&M) -> R + Send + Sync>, mode: RhsMode) -> Arc<TCtx<R, M>>
 where
     R: Field + Debug + Send + Sync + 'static,
     M: ModelEl,
 {
     let alpha_m = tower_alphabet::<M>(&t.f, cx.seed, name, 2);
-    let rhs: Vec<usize> = alpha_m.iter().enumerate().filter(|(_, (n, _))| rhs_full || !n.contains('+')).map(|(i, _)| i).collect();
+    let rhs: Vec<usize> = alpha_m
+        .iter()
+        .enumerate()
+        .filter(|(i, (n, _))| match mode {
+            RhsMode::Full => true,
+            RhsMode::Sparse => !n.contains('+'),
+            RhsMode::SparsePlusEvery(k) => !n.contains('+') || i % k == 0,
+        })
+        .map(|(i, _)| i)
+        .collect();
     let frob = Frob::<M>::new(t, M::DEG);
     let dense: Vec<M> = alpha_m.iter().filter(|(n, _)| n.starts_with("dense")).map(|x| x.1.clone()).collect();
     let bad = model_selfcheck(t, &frob, &dense);
@@ -382,7 +402,7 @@ fn bls_towers(cx: &mut Ctx) {
     let thorough = cx.tier.is_thorough();
 
     // ---- Fp2
-    let tc = mk::<Fp2, M2>(cx, "bls12-381-Fp2", &t, Box::new(fp2), true);
+    let tc = mk::<Fp2, M2>(cx, "bls12-381-Fp2", &t, Box::new(fp2), RhsMode::Full);
     let mut c = generic_tower_ops(&tc, true);
     c.extend(quad_extras::<Fp2, BFp>(&tc, m2, |x| x.norm(), |x| x.legendre(), <Fp2 as WithSmallOrderMulGroup<3>>::ZETA, 48));
     c.push(t_un(&tc, "mul_by_nonresidue", |a| {
@@ -458,7 +478,7 @@ fn bls_towers(cx: &mut Ctx) {
     cx.run_cases("bls12-381-Fp2", &c, |k| k());
 
     // ---- Fp6
-    let tc = mk::<Fp6, M6>(cx, "bls12-381-Fp6", &t, Box::new(fp6), thorough);
+    let tc = mk::<Fp6, M6>(cx, "bls12-381-Fp6", &t, Box::new(fp6), RhsMode::Full);
     let mut c = generic_tower_ops(&tc, false);
     c.push(t_un(&tc, "mul_by_nonresidue", |a| {
         let mut t = *a;
@@ -495,7 +515,7 @@ fn bls_towers(cx: &mut Ctx) {
     cx.run_cases("bls12-381-Fp6", &c, |k| k());
 
     // ---- Fp12
-    let tc = mk::<Fp12, M12>(cx, "bls12-381-Fp12", &t, Box::new(fp12), false);
+    let tc = mk::<Fp12, M12>(cx, "bls12-381-Fp12", &t, Box::new(fp12), if thorough { RhsMode::SparsePlusEvery(5) } else { RhsMode::Sparse });
     let mut c = generic_tower_ops(&tc, false);
     c.push(frobenius_case(&tc, 13, |x, k| {
         let mut t = *x;
@@ -561,7 +581,7 @@ fn bn_towers(cx: &mut Ctx) {
     let seed = cx.seed;
 
     // ---- Fq2
-    let tc = mk::<Fq2, M2>(cx, "bn254-Fq2", &t, Box::new(fq2), true);
+    let tc = mk::<Fq2, M2>(cx, "bn254-Fq2", &t, Box::new(fq2), RhsMode::Full);
     let mut c = generic_tower_ops(&tc, true);
     c.extend(quad_extras::<Fq2, Fq>(&tc, m2, |x| x.norm(), |x| x.legendre(), <Fq2 as WithSmallOrderMulGroup<3>>::ZETA, 32));
     c.push(t_un(&tc, "mul_by_nonresidue", |a| a.mul_by_nonresidue(), |tc, a| tc.t.mul_xi(a)));
@@ -611,9 +631,18 @@ fn bn_towers(cx: &mut Ctx) {
         t
     }, |tc, a| M2(a.0.clone(), tc.t.f.neg(&a.1))));
     c.push(tcs(&tc, "lexicographically_largest", |tc, out| {
-        let half = (&tc.t.f.p - 1u32) >> 1;
+        let half: BigUint = (&tc.t.f.p - 1u32) >> 1;
         let mut panics = 0;
-        for (_, a, x) in &tc.alpha {
+        let edge = [bu(0), bu(1), half.clone(), &half + 1u32, &tc.t.f.p - 1u32];
+        let mut els: Vec<(M2, Fq2)> = tc.alpha.iter().map(|a| (a.1.clone(), a.2)).collect();
+        for c0 in &edge {
+            for c1 in &edge {
+                let m = M2(c0.clone(), c1.clone());
+                let x = tc.el(&m);
+                els.push((m, x));
+            }
+        }
+        for (a, x) in &els {
             let Some(r) = tc.guard(out, "lexicographically_largest", &mut panics, || dm(a), || bool::from(x.lexicographically_largest())) else { continue };
             let e = a.1 > half || (a.1.is_zero() && a.0 > half);
             out.eval(&format!("lexicographically_largest:{e}"), nontrivial(a));
@@ -634,6 +663,17 @@ fn bn_towers(cx: &mut Ctx) {
     }));
     c.push(tcs(&tc, "from_bytes", |tc, out| {
         quad_decoder(tc, out, "from_bytes", 32, |b| Option::from(Fq2::from_bytes(&<[u8; 64]>::try_from(b).unwrap())), |_, v| v.clone());
+    }));
+    c.push(tcs(&tc, "EndianRepr::from_bytes", |tc, out| {
+        use midnight_curves::serde::endian::EndianRepr;
+        quad_decoder(tc, out, "EndianRepr::from_bytes", 32, |b| Option::from(<Fq2 as EndianRepr>::from_bytes(b)), |_, v| v.clone());
+        for (_, a, x) in &tc.alpha {
+            let mut e = to_le(&a.0, 32);
+            e.extend(to_le(&a.1, 32));
+            if <Fq2 as EndianRepr>::to_bytes(x) != e {
+                out.viol(Viol::new(tc.key("EndianRepr::to_bytes", "mismatch"), "EndianRepr::to_bytes is not c0 || c1 little-endian", dm(a)));
+            }
+        }
     }));
     c.push(tcs(&tc, "from_raw_bytes", |tc, out| {
         quad_decoder(tc, out, "from_raw_bytes", 32, |b| Fq2::from_raw_bytes(b), |m, v| mont_value(m, 4, v));
@@ -698,7 +738,7 @@ fn bn_towers(cx: &mut Ctx) {
     cx.run_cases("bn254-Fq2", &c, |k| k());
 
     // ---- Fq6
-    let tc = mk::<Fq6, M6>(cx, "bn254-Fq6", &t, Box::new(fq6), thorough);
+    let tc = mk::<Fq6, M6>(cx, "bn254-Fq6", &t, Box::new(fq6), RhsMode::Full);
     let mut c = generic_tower_ops(&tc, false);
     c.push(t_un(&tc, "mul_by_nonresidue", |a| a.mul_by_nonresidue(), |tc, a| tc.t.mul_v(a)));
     c.push(tcs(&tc, "NON_RESIDUE", |tc, out| {
@@ -777,7 +817,7 @@ fn bn_towers(cx: &mut Ctx) {
     cx.run_cases("bn254-Fq6", &c, |k| k());
 
     // ---- Fq12
-    let tc = mk::<Fq12, M12>(cx, "bn254-Fq12", &t, Box::new(fq12), false);
+    let tc = mk::<Fq12, M12>(cx, "bn254-Fq12", &t, Box::new(fq12), if thorough { RhsMode::SparsePlusEvery(5) } else { RhsMode::Sparse });
     let mut c = generic_tower_ops(&tc, false);
     c.push(frobenius_case(&tc, 13, |x, k| {
         let mut t = *x;
